@@ -2600,6 +2600,10 @@ func (t *Terminal) printInfoImpl() {
 	if fillLength > 0 {
 		t.window.CPrint(tui.ColSeparator, " ")
 		printSeparator(fillLength, false)
+	} else if fillLength == 0 && t.separatorLen > 0 {
+		// With a separator the line is not cleared before printing; erase the
+		// cell after the text that an earlier, longer rendition may have used
+		t.window.Print(" ")
 	}
 }
 
